@@ -11,6 +11,10 @@
 
   A division with a possibly-zero divisor is `divQ?` in the model (`none` = numpy's nan/inf), so
   no statement below silently relies on Lean's `x / 0 = 0`.
+
+  Repairs of /repo mirrored here: b1aea695 (one-sample ramp), e02d4356 (two-sample Blackman),
+  c5791488 (ArbitraryPhase on one sample).  The theorems named `…_old` are statements about the
+  formulas as they were before those commits (findings F6.1–F6.3), kept as documentation.
 -/
 import Proofs.Waveform
 namespace Pulser
@@ -107,7 +111,7 @@ example : (Wf.composite [.const 2 1, .ramp 3 0 1, .custom [5]]).samples?
 
 /-- **Ramp values.**  For `d ≥ 2` the samples are defined, sample `i` is
 `start + i·(stop − start)/(d − 1)` (the `np.clip` never bites), the first is `start` and the last
-is `stop`.  The hypothesis `d ≥ 2` is forced: see `ramp_one_counterexample`. -/
+is `stop`.  (`d ≥ 2` because the formula mentions `d − 1`; `d = 1` is `ramp_defined`.) -/
 theorem ramp_values (d : Nat) (a b : Rat) (hd : 2 ≤ d) :
     ∃ s, (Wf.ramp d a b).samples? = some s ∧ s.length = d ∧
       (∀ i, i < d → s[i]? = some (a + (i : Rat) * (b - a) / ((d : Rat) - 1))) ∧
@@ -123,13 +127,21 @@ theorem ramp_values (d : Nat) (a b : Rat) (hd : 2 ≤ d) :
       rw [Nat.cast_sub (by omega)]; simp
     rw [this]; congr 1; field_simp; ring
 
-/-- **F6 (ramp).**  At `d = 1` the coded formula divides by `d − 1 = 0` whatever `start` and
-`stop` are: the one-sample ramp has no finite sample (`[nan]` in numpy), although the
-constructor accepts it. -/
-theorem ramp_one_counterexample (a b : Rat) :
-    (Wf.ramp 1 a b).valid = true ∧ (Wf.ramp 1 a b).samples? = none := by
-  refine ⟨by simp [Wf.valid], ?_⟩
-  simp only [Wf.samples?]; exact rampSamples?_one a b
+/-- **Every ramp has defined samples** (since /repo b1aea695 the slope divides by
+`max(d − 1, 1)`): exactly `d` of them, starting at `start`; the one-sample ramp is `[start]`. -/
+theorem ramp_defined (d : Nat) (a b : Rat) :
+    (∃ s, (Wf.ramp d a b).samples? = some s ∧ s.length = d) ∧
+    (Wf.ramp 1 a b).samples? = some [a] := by
+  simp only [Wf.samples?]
+  obtain ⟨s, hs⟩ := rampSamples?_isSome d a b
+  exact ⟨⟨s, hs, rampSamples?_length hs⟩, rampSamples?_one a b⟩
+
+/-- **F6.1, about the old formula** (`slope = (stop − start)/(d − 1)`, before /repo b1aea695): at
+`d = 1` it divides by zero whatever `start` and `stop` are — the accepted one-sample ramp had
+no finite sample (`[nan]` in numpy). -/
+theorem ramp_one_counterexample_old (a b : Rat) :
+    (Wf.ramp 1 a b).valid = true ∧ rampSamplesOld? 1 a b = none :=
+  ⟨by simp [Wf.valid], rampSamplesOld?_one a b⟩
 
 /-- **Window area.**  A Blackman/Kaiser waveform whose samples are defined integrates to the
 requested area, whatever the window values are; and the samples are undefined exactly when the
@@ -140,12 +152,17 @@ theorem window_integral (be : Option Rat) (norm : List Rat) (area : Rat) :
   simp only [Wf.samples?]
   exact ⟨fun s h => windowSamples?_sum h, windowSamples?_none_iff norm area⟩
 
-/-- **F6 (Blackman).**  `np.blackman(2)` clipped at 0 is `[0, 0]`: the two-sample Blackman
-waveform is accepted by the constructor and has no finite sample (0/0). -/
-theorem blackman_two_counterexample (area : Rat) :
-    (Wf.window none [0, 0] area).valid = true ∧ (Wf.window none [0, 0] area).samples? = none := by
-  refine ⟨by simp [Wf.valid], ?_⟩
-  rw [(window_integral none [0, 0] area).2]; simp
+/-- **F6.2, about the old window.**  `np.blackman(2)` clipped at 0 is `[0, 0]`; normalising it
+(as the code did before /repo e02d4356) gives no finite sample (0/0), although the constructor
+accepts the duration.  Since the repair a Blackman window of at most two samples is flat, and then
+the samples are defined with the requested area (`window_integral`). -/
+theorem blackman_two_counterexample_old (area : Rat) :
+    (Wf.window none [0, 0] area).valid = true ∧ (Wf.window none [0, 0] area).samples? = none ∧
+    (Wf.window none [1, 1] area).samples? = some [area / 2 * 1000, area / 2 * 1000] := by
+  refine ⟨by simp [Wf.valid], ?_, ?_⟩
+  · rw [(window_integral none [0, 0] area).2]; simp
+  · simp only [Wf.samples?, windowSamples?, divQ?]
+    norm_num
 
 example : (Wf.window none [0, 1, 0] 2).samples? = some [0, 2000, 0] := by decide +kernel
 
@@ -210,10 +227,15 @@ theorem arbitrary_phase_reconstructs (phi det : List Rat) (h : arbDetuning? phi 
     simp [hl]
   rw [h2] at this; exact this.symm
 
-/-- The general branch is defined iff the phase waveform has at least two samples (`np.pad(…,
-mode="edge")` raises on the empty difference of a one-sample custom phase waveform). -/
+/-- The branch is defined for every non-empty phase waveform (a one-sample phase waveform gives a
+zero detuning since /repo c5791488) … -/
 theorem arbitrary_phase_defined_iff (phi : List Rat) :
-    arbDetuning? phi = none ↔ phi.length ≤ 1 := arbDetuning?_none_iff phi
+    arbDetuning? phi = none ↔ phi = [] := arbDetuning?_none_iff phi
+
+/-- … whereas the old formula (F6.3) edge-padded the empty difference of a one-sample phase
+waveform, an error in numpy. -/
+theorem arbitrary_phase_single_sample_old (phi : List Rat) :
+    arbDetuningOld? phi = none ↔ phi.length ≤ 1 := arbDetuningOld?_none_iff phi
 
 /-- Constant and ramp branches of `ArbitraryPhase` reproduce the constant / the ideal ramp. -/
 theorem arbitrary_phase_const_ramp (d : Nat) (v a b : Rat) :
@@ -235,40 +257,43 @@ theorem blackman_loop_least (S : Nat → Rat) (area maxVal : Rat) (fuel N : Nat)
     ∀ M, bmGuess area maxVal ≤ M → M < N → bmStop S area maxVal M = false :=
   searchUp_spec _ _ _ h
 
-/-- **Minimality with the closed form.**  If the window sums are `0.42·(N−1)` (true of the ideal
-Blackman window for `N ≥ 4`; a hypothesis here), `area, max_val > 0` and the first guess is at
-least 2, then the loop terminates after exactly one step, the chosen scaling does not exceed
-`max_val`, and **every** shorter duration `M ≥ 2` has a scaling above `max_val` ("one nanosecond
+/-- **Minimality with the closed form.**  If the window sums are `0.42·(N−1)` from some `L ≥ 2` on
+(true of the ideal Blackman window for `N ≥ 4`, i.e. `L = 4`, which the monitor checks numerically;
+a hypothesis here), `area, max_val > 0` and the first guess is at least `L`, then the loop terminates after exactly one step, the chosen scaling does not exceed
+`max_val`, and **every** shorter duration `M ≥ L` has a scaling above `max_val` ("one nanosecond
 shorter would exceed it"). -/
-theorem blackman_search_minimal (S : Nat → Rat) (hS : ∀ N, 2 ≤ N → S N = bmIdealSum N)
-    (area maxVal : Rat) (ha : 0 < area) (hm : 0 < maxVal) (hg : 2 ≤ bmGuess area maxVal)
+theorem blackman_search_minimal (S : Nat → Rat) (L : Nat) (hL : 2 ≤ L)
+    (hS : ∀ N, L ≤ N → S N = bmIdealSum N)
+    (area maxVal : Rat) (ha : 0 < area) (hm : 0 < maxVal) (hg : L ≤ bmGuess area maxVal)
     (fuel : Nat) (hf : 2 ≤ fuel) :
     ∃ N, bmSearch S area maxVal fuel = some N ∧ N = bmGuess area maxVal + 1 ∧
       (∃ sc, bmScaling? S area N = some sc ∧ sc ≤ maxVal) ∧
-      ∀ M, 2 ≤ M → M < N → ∃ sc, bmScaling? S area M = some sc ∧ maxVal < sc := by
-  refine ⟨_, bmSearch_ideal hS ha hm hg hf, rfl, ?_, ?_⟩
-  · have hst := bm_guess_succ_stops hS ha hm (by omega)
-    obtain ⟨e1, _⟩ := bmStop_ideal (area := area) hS hm (N := bmGuess area maxVal + 1) (by omega)
+      ∀ M, L ≤ M → M < N → ∃ sc, bmScaling? S area M = some sc ∧ maxVal < sc := by
+  refine ⟨_, bmSearch_ideal hL hS ha hm hg hf, rfl, ?_, ?_⟩
+  · have hst := bm_guess_succ_stops hL hS ha hm hg
+    obtain ⟨e1, _⟩ := bmStop_ideal (S := S) (area := area) hm (N := bmGuess area maxVal + 1) (by omega)
+      (hS _ (by omega))
     refine ⟨_, e1, ?_⟩
     unfold bmStop at hst; rw [e1] at hst; simpa using hst
   · intro M hM hlt
-    have hf := bm_below_guess_fails hS ha hm hM (by omega)
-    obtain ⟨e1, _⟩ := bmStop_ideal (area := area) hS hm hM
+    have hf := bm_below_guess_fails hL hS ha hm hM (by omega)
+    obtain ⟨e1, _⟩ := bmStop_ideal (S := S) (area := area) hm (N := M) (by omega) (hS M hM)
     refine ⟨_, e1, ?_⟩
     unfold bmStop at hf; rw [e1] at hf
     simpa using hf
 
 /-- **Never above the maximum.**  With window peaks in `[0, 1]`, the waveform finally chosen
 (after the odd/even adjustment, as coded) has a largest sample `peak·scaling ≤ max_val`. -/
-theorem blackman_from_max_val_le (S peak : Nat → Rat) (hS : ∀ N, 2 ≤ N → S N = bmIdealSum N)
+theorem blackman_from_max_val_le (S peak : Nat → Rat) (L : Nat) (hL : 2 ≤ L)
+    (hS : ∀ N, L ≤ N → S N = bmIdealSum N)
     (hpk : ∀ N, 0 ≤ peak N ∧ peak N ≤ 1) (area maxVal : Rat) (ha : 0 < area) (hm : 0 < maxVal)
-    (hg : 2 ≤ bmGuess area maxVal) (fuel : Nat) (hf : 2 ≤ fuel) :
+    (hg : L ≤ bmGuess area maxVal) (fuel : Nat) (hf : 2 ≤ fuel) :
     ∃ N sc, bmFromMaxVal S peak area maxVal fuel = some N ∧
       bmScaling? S area N = some sc ∧ peak N * sc ≤ maxVal := by
-  have hs := bmSearch_ideal hS ha hm hg hf
-  have hst := bm_guess_succ_stops hS ha hm (by omega)
-  obtain ⟨sc, h1, h2⟩ := bmAdjust_le hS hpk ha hm (bmGuess area maxVal)
-    (N := bmGuess area maxVal + 1) (by omega) hst
+  have hs := bmSearch_ideal hL hS ha hm hg hf
+  have hst := bm_guess_succ_stops hL hS ha hm hg
+  obtain ⟨sc, h1, h2⟩ := bmAdjust_le (S := S) hpk ha hm (bmGuess area maxVal)
+    (N := bmGuess area maxVal + 1) (by omega) (hS _ (by omega)) hst
   exact ⟨_, sc, by simp [bmFromMaxVal, hs], h1, h2⟩
 
 /-- Non-vacuity: area π/… replaced by rationals; guess 24, chosen duration 25. -/
